@@ -122,6 +122,7 @@ func symbolizeMapping(source string, offset int64, syms func(string, string) ([]
 
 	lines := make(map[uint64]profile.Line)
 	functions := make(map[string]*profile.Function)
+	nextID := nextFunctionID(p)
 
 	b, err := syms(source, strings.Join(a, "+"))
 	if err != nil {
@@ -154,10 +155,11 @@ func symbolizeMapping(source string, offset int64, syms func(string, string) ([]
 			fn := functions[name]
 			if fn == nil {
 				fn = &profile.Function{
-					ID:         uint64(len(p.Function) + 1),
+					ID:         nextID,
 					Name:       name,
 					SystemName: name,
 				}
+				nextID++
 				functions[name] = fn
 				p.Function = append(p.Function, fn)
 			}
@@ -193,4 +195,16 @@ func adjust(addr uint64, offset int64) (uint64, bool) {
 		}
 	}
 	return adj, false
+}
+
+// nextFunctionID returns an id above every function id in p: the ids
+// already in the profile need not be dense.
+func nextFunctionID(p *profile.Profile) uint64 {
+	var maxID uint64
+	for _, f := range p.Function {
+		if f.ID > maxID {
+			maxID = f.ID
+		}
+	}
+	return maxID + 1
 }
